@@ -30,6 +30,7 @@ func init() {
 	vRegister("vC23_robust_read", vC23_robust_read)
 	vRegister("vC23_robust_server", vC23_robust_server)
 	vRegister("vC23_detect", vC23_detect)
+	vRegister("vC23_detect_md", vC23_detect_md)
 	vRegister("vC23_bucket", vC23_bucket)
 	vRegister("vC23_pool", vC23_pool)
 }
@@ -221,9 +222,14 @@ func vC23_roundtrip() {
 
 func vC23_headers(md *Metadata) (k1, v1, k2, v2 string, n int) {
 	n = vCase("headers")
+	// lengths are fixed per job (contents symbolic); the two keys differ in length, or (headers == 3) are the same key set twice.
+	// Keys of equal length and arbitrary contents are covered by vC23_metadata.
 	kl, vl := vCase("keyLen"), vCase("valLen")
 	k1, v1 = vNondetStringN("k1", kl), vNondetStringN("v1", vl)
-	k2, v2 = vNondetStringN("k2", kl), vNondetStringN("v2", vl+1)
+	k2, v2 = vNondetStringN("k2", kl+1), vNondetStringN("v2", vl+1)
+	if n == 3 {
+		k2, n = k1, 2
+	}
 	if n >= 1 {
 		md.Set(k1, v1)
 	}
@@ -282,12 +288,6 @@ func vC23_roundtrip_md() {
 		vAssert(vC23_sameMessage(got2, m), "the client decodes the encoded message of a metadata frame")
 		vAssert(vC23_sameHeaders(gmd2, k1, v1, k2, v2, n), "the client decodes the encoded headers")
 	}
-	if n == 2 && k1 == k2 {
-		vCover("same-key-twice")
-	}
-	if n == 2 && k1 != k2 {
-		vCover("two-keys")
-	}
 	vCover("end")
 }
 
@@ -335,6 +335,19 @@ func vC23_metadata() {
 	vCover("end")
 }
 
+// a clock the harness can read back: substituted for time.Now in vC23_deadline (arbitrary non-decreasing readings)
+var vC23_clock []int64
+
+func vC23_now() time.Time {
+	t := vNondetInt64("now")
+	vAssume(t > 1 && t < 1<<62) // later than 1ns after the epoch (a re-based deadline of exactly 0 would read as "none"), before 2116
+	if n := len(vC23_clock); n > 0 {
+		vAssume(t >= vC23_clock[n-1])
+	}
+	vC23_clock = append(vC23_clock, t)
+	return time.Unix(0, t)
+}
+
 // deadline: travels as remaining time, re-based on the receiver's clock
 func vC23_deadline() {
 	d := vNondetInt64("deadline")
@@ -343,29 +356,35 @@ func vC23_deadline() {
 	md.SetDeadline(time.Unix(0, d))
 	g0, ok0 := md.GetDeadline()
 	vAssert(ok0 && g0.UnixNano() == d, "GetDeadline returns what SetDeadline stored")
-	before := time.Now().UnixNano()
-	vAssume(before > 1) // the clock reads later than 1ns after the epoch (a re-based deadline of exactly 0 would mean "none")
+	vC23_clock = nil
 	b := md.MarshalBinary()
 	got := &Metadata{}
 	err := got.UnmarshalBinary(b)
-	after := time.Now().UnixNano()
 	vAssert(err == nil, "encoded metadata decodes")
 	if err != nil {
 		return
 	}
+	vAssert(len(vC23_clock) == 2, "the clock is read once by the encoder and once by the decoder")
+	if len(vC23_clock) != 2 {
+		return
+	}
+	sent, received := vC23_clock[0], vC23_clock[1]
 	gd, has := got.GetDeadline()
 	vAssert(has, "a deadline stays a deadline")
 	if has {
-		diff := gd.UnixNano() - d
 		// re-based by the time between encode and decode; a deadline that expires exactly at encode time is nudged by 1ns
-		vAssert(diff >= -1 && diff <= after-before, "the decoded deadline is the encoded one shifted by at most the elapsed clock time")
-		if diff == -1 {
+		want := d + (received - sent)
+		if d == sent {
+			want = received - 1
 			vCover("nudged")
 		}
+		vAssert(gd.UnixNano() == want, "the decoded deadline is the encoded one shifted by exactly the clock time elapsed between encode and decode")
+		diff := gd.UnixNano() - d
+		vAssert(diff >= -1 && diff <= received-sent, "the decoded deadline is within clock tolerance of the encoded one")
 		if diff > 0 {
 			vCover("clock-advanced")
 		}
-		if gd.UnixNano() < after {
+		if gd.UnixNano() < received {
 			vCover("already-expired")
 		}
 	}
@@ -405,8 +424,7 @@ func vC23_concat() {
 	f2 := vC23_frameOf(s, m2, !first, md1)
 	vC23_in = vC23Stream{data: append(append([]byte{}, f1...), f2...)}
 	c := &Client{serializer: s}
-	maxFrame := vNondetUint32("maxFrameSize")
-	vAssume(int(maxFrame) >= len(f1) && int(maxFrame) >= len(f2))
+	maxFrame := uint32(max(len(f1), len(f2))) // the limit is inclusive: a frame of exactly the maximum size passes
 
 	r1, err := readProtoFrame(nil, nil, maxFrame)
 	vAssert(err == nil && vC23_bytesEq(r1, f1), "the first frame read is the first frame written")
@@ -424,9 +442,13 @@ func vC23_concat() {
 	g2, gmd2, err := c.unmarshalProtoResponse(r2)
 	vAssert(err == nil && vC23_sameMessage(g2, m2), "the second message read is the second message written")
 	vAssert(err != nil || (gmd2 != nil) == !first, "metadata is found exactly on the frame that carries it (second)")
-	if err == nil && gmd2 != nil {
-		v, ok := gmd2.Get(hk)
-		vAssert(ok && v == hv, "the header of the second frame is decoded")
+	w := gmd1
+	if !first {
+		w = gmd2
+	}
+	if w != nil {
+		v, ok := w.Get(hk)
+		vAssert(ok && v == hv, "the header is decoded from the frame that carries it")
 	}
 	_, err = readProtoFrame(nil, nil, maxFrame)
 	vAssert(err == io.EOF, "after the last frame the reader reports end of stream")
@@ -648,13 +670,17 @@ func vC23_robust_read() {
 		vAssert(vC23_in.pos == 4, "nothing beyond the prefix is consumed for an oversized frame")
 		vCover("too-large")
 	case int(total) > len(data):
-		vAssert(err == io.ErrUnexpectedEOF && frame == nil, "a truncated body is an error")
+		wantErr := io.ErrUnexpectedEOF
+		if len(data) == 4 {
+			wantErr = io.EOF // nothing at all after the prefix
+		}
+		vAssert(err == wantErr && frame == nil, "a truncated body is an error")
 		vCover("truncated")
 	default:
 		vAssert(err == nil, "a complete frame within the limit is returned")
 		if err == nil {
 			vAssert(len(frame) == int(total) && uint32(len(frame)) <= maxFrame, "the returned buffer has exactly the announced size, within the limit")
-			vAssert(vC23_bytesEq(frame, data[:total]), "the returned frame is the stream prefix")
+			vAssert(vC23_bytesEq(frame, data[:int(total)]), "the returned frame is the stream prefix")
 			vAssert(vC23_in.pos == int(total), "exactly one frame is consumed")
 		}
 		vCover("complete")
@@ -669,7 +695,7 @@ func vC23_robust_server() {
 	vC23_in = vC23Stream{data: data}
 	vC23_seen = nil
 	maxFrame := vNondetUint32("maxFrameSize")
-	vAssume(maxFrame <= 64)
+	vAssume(maxFrame <= 32) // so that every admitted frame fits the executor's bound on symbolic allocations (sym_slice_cap)
 	ps := vC23_newServer(maxFrame, vNondetBool("handlerRegistered"))
 	ps.handleConn(vC23Conn{})
 	for i := range vC23_seen {
@@ -696,14 +722,22 @@ func vC23_detect() {
 	vAssume(err == nil)
 	_, _, _, err = s.UnmarshalBinaryWithMetadata(frame)
 	vAssert(err == ErrInvalidMessageLength, "the metadata decoder refuses a frame without metadata with the error that makes the server fall back")
-	// and a frame with an (empty or not) metadata section is never decoded as a plain frame by the plain decoder
+	vCover("end")
+}
+
+// ... and a frame with an (empty or not) metadata section is decoded as such and never accepted by the plain decoder
+func vC23_detect_md() {
+	m := vC23_message()
+	s := NewProtoSerializer()
 	var md *Metadata
-	if vNondetBool("withMetadata") {
+	if vCase("withMetadata") == 1 {
 		md = NewMetadata()
 		md.Set(vNondetStringN("hk", 1), vNondetStringN("hv", 2))
 	}
 	frame2, err := s.MarshalBinaryWithMetadata(m, md)
-	vAssume(err == nil)
+	if err != nil {
+		return
+	}
 	g, gmd, _, err := s.UnmarshalBinaryWithMetadata(frame2)
 	vAssert(err == nil && vC23_sameMessage(g, m) && (gmd != nil) == (md != nil), "a metadata frame is decoded as such, with nil metadata when none was attached")
 	_, _, err = s.UnmarshalBinary(frame2)
